@@ -28,6 +28,9 @@ type Workspace struct {
 	cachedCommodities map[string]bool
 	cachedAccounts    map[string]bool
 	index             *WorkspaceIndex
+	// openContent, if set, yields the editor text of a file that is open; such a
+	// file is taken from there, not from disk, when it joins the include tree
+	openContent func(path string) (string, bool)
 }
 
 func NewWorkspace(rootURI string, loader *include.Loader) *Workspace {
@@ -38,6 +41,13 @@ func NewWorkspace(rootURI string, loader *include.Loader) *Workspace {
 		reverseGraph: make(map[string][]string),
 		index:        NewWorkspaceIndex(),
 	}
+}
+
+// SetOpenContent tells the workspace where to find the editor text of open files.
+func (w *Workspace) SetOpenContent(source func(path string) (string, bool)) {
+	w.mu.Lock()
+	defer w.mu.Unlock()
+	w.openContent = source
 }
 
 func (w *Workspace) Initialize() error {
@@ -374,6 +384,11 @@ func (w *Workspace) addMissingReachableLocked(reachable map[string]bool) bool {
 			continue
 		}
 		content, err := os.ReadFile(path)
+		if w.openContent != nil {
+			if text, open := w.openContent(path); open {
+				content, err = []byte(text), nil
+			}
+		}
 		if err != nil {
 			continue
 		}
